@@ -127,6 +127,8 @@ func (d *Decoder) decodeSlice(pkt *rtp.Packet) ([]byte, error) {
 		if (d.sliceBufferSize + d.fragmentsSize) > maxFrameSize {
 			errSize := d.sliceBufferSize + d.fragmentsSize
 			d.resetFragments()
+			d.sliceBuffer = nil
+			d.sliceBufferSize = 0
 			return nil, fmt.Errorf("frame size (%d) is too big, maximum is %d",
 				errSize, maxFrameSize)
 		}
@@ -152,6 +154,8 @@ func (d *Decoder) decodeSlice(pkt *rtp.Packet) ([]byte, error) {
 		if (d.sliceBufferSize + d.fragmentsSize) > maxFrameSize {
 			errSize := d.sliceBufferSize + d.fragmentsSize
 			d.resetFragments()
+			d.sliceBuffer = nil
+			d.sliceBufferSize = 0
 			return nil, fmt.Errorf("frame size (%d) is too big, maximum is %d",
 				errSize, maxFrameSize)
 		}
